@@ -50,6 +50,9 @@ func DBOps(root *ssa.Function) []DBOp {
 			if (kind == "Set" || kind == "Del") && len(args) >= 1 {
 				op.Key = rf.Term(args[0])
 				op.Family = keyFamily(op.Key)
+				if op.Family == "" {
+					op.Family = keyFamilyThroughBuilder(args[0], 0)
+				}
 				if kind == "Set" && len(args) >= 2 {
 					op.Val = rf.Term(args[1])
 				}
@@ -82,6 +85,34 @@ func keyFamily(t *Term) string {
 		return true
 	})
 	return fam
+}
+
+// keyFamilyThroughBuilder: a key made by a key-building function of this module (one that
+// writes the prefix byte into a buffer instead of joining slices) belongs to the family of the
+// prefix variable it was handed.
+func keyFamilyThroughBuilder(v ssa.Value, depth int) string {
+	if depth > 3 {
+		return ""
+	}
+	call, ok := stripConv(v).(*ssa.Call)
+	if !ok {
+		if call, ok = valueRoot(v).(*ssa.Call); !ok {
+			return ""
+		}
+	}
+	g := call.Common().StaticCallee()
+	if g == nil || !IsOwn(g) {
+		return ""
+	}
+	for _, a := range call.Common().Args {
+		if f := keyFamily(T(a)); f != "" {
+			return f
+		}
+		if f := keyFamilyThroughBuilder(a, depth+1); f != "" {
+			return f
+		}
+	}
+	return ""
 }
 
 // constValue looks up the value of a package-level constant.
